@@ -195,7 +195,8 @@ REGEN = {
     "TwoCol": ["editorInsertTwoColumnsOpts", "editorInsertTwoColumns"],
     "DefTable": ["editorInsertDefinitionsTableOpts", "editorInsertDefinitionsTable"],
     # internal/gem at pointer level (harness/goheap.go -> Gen/GemCode.lean, layer H)
-    "Gem": ["gemInitialized", "gemNew", "gemClone", "gemRunes", "gemString", "gemIsEmpty", "gemAdd", "gemSplit", "gemLen",
+    "GemSplit": ["gemSplit"],
+    "Gem": ["gemInitialized", "gemNew", "gemClone", "gemRunes", "gemString", "gemIsEmpty", "gemAdd", "gemLen",
             "gemCharAt", "gemGraphemeIndexes"],
     "GemOps": ["gemSub", "gemSetCharAt", "gemRepeat", "gemRepeatStr", "gemIndexFunc"],
     "GemInv": [],
@@ -208,7 +209,8 @@ REGEN_OF = {
     "C13": ["Align"], "C14": ["Combine", "Wrap"], "C15": ["Combine", "Wrap"], "C16": ["Table", "InsertTable", "Block"],
     "C17": ["Options", "WrapOpts", "IndentOpts", "Collapse", "Apply", "Paras", "InsertTable"],
     "C18": ["Block", "Chars", "Lines", "Commit", "Edit"],
-    "C19": ["Gem", "GemOps", "GemInv", "GemRev"], "C20": ["Gem", "GemOps", "GemInv", "GemRev"],
+    "C19": ["GemSplit", "Gem", "GemOps", "GemInv", "GemRev"], "C20": ["Gem", "GemOps", "GemInv", "GemRev"],
+    "C01": ["GemSplit"],
 }
 # T2: two-column layout (C14), definitions table (C15), both also delegation (C17) and totality (C18)
 for _p, _gs in (("C14", ["TwoCol"]), ("C15", ["BlockOps", "DefTable"]), ("C17", ["TwoCol", "BlockOps", "DefTable"]),
